@@ -121,7 +121,7 @@ func oneRun(t *testing.T, seed int64, yp float64) (canon string, trace string, p
 			for ci := 0; ci < 2; ci++ {
 				ci := ci
 				go func() {
-					time.Sleep(time.Duration(ci) * 137 * time.Millisecond)
+					time.Sleep(time.Duration(ci)*137*time.Millisecond + time.Second)
 					cn := fmt.Sprintf("app%d", ci)
 					c := client.NewClient(util.NoOpLogger{}, &client.ClientConfig{ClientID: cn, RetryDelay: 10 * time.Second, RetryCount: 4,
 						ConnectTimeout: 20 * time.Second, KeepAlive: 30 * time.Second, CleanSession: true})
